@@ -20,5 +20,6 @@ pub mod auth;
 pub mod fault;
 pub mod integrity;
 pub mod proto;
+pub mod replx;
 pub mod session;
 pub mod storage;
